@@ -130,28 +130,36 @@ QTypes(n) == IF n \in {ADS, RWN} THEN {"A", "AAAA"} ELSE {"A"}
 Queries == UNION {{[k |-> "query", addr |-> s.addr, cid |-> s.cid, proto |-> s.proto, name |-> n, qt |-> t]
                    : s \in Senders, t \in QTypes(n)} : n \in QNames}
 
-ASSUME PrintT(<<"@@V", ToJson([k |-> "universe", admin |-> AdminOps, queries |-> Queries])>>)
-
 \* --------------------------------------------------------- base configurations
 RECURSIVE After(_, _, _)
 After(s, ops, i) == IF i > Len(ops) THEN s ELSE After((CHOOSE r \in Apply(s, ops[i]) : TRUE).S, ops, i + 1)
-Busy1 == After(S0, <<[k |-> "client_add", c |-> K1a], [k |-> "client_add", c |-> K2b],
-                     [k |-> "set_rules", rules |-> {Rule("block", "domain", ADS)}],
-                     [k |-> "rewrite_add", e |-> Rw(RWN, "ip4", "i1", <<>>)],
-                     [k |-> "blocked_services", svcs |-> {"yt"}],
-                     [k |-> "qlog_config", enabled |-> TRUE, anon |-> TRUE, ignored |-> {}]>>, 1)
-Busy2 == After(S0, <<[k |-> "client_add", c |-> K1c], [k |-> "client_add", c |-> K2a],
-                     [k |-> "filtering", on |-> FALSE],
-                     [k |-> "rewrite_add", e |-> Rw(ADS, "ip4", "i2", <<>>)],
-                     [k |-> "blocked_services", svcs |-> {"yt", "fb"}],
-                     Acc({}, {AC!Ip("v4", BitsOf(A2))}, {AC!Pat("domain", DENY)}),
-                     [k |-> "stats_config", enabled |-> TRUE, ignored |-> {IgnPat(RWN)}]>>, 1)
-Busy3 == After(S0, <<[k |-> "client_add", c |-> K1d], [k |-> "client_add", c |-> K2b],
-                     [k |-> "set_rules", rules |-> {Rule("block", "domain", ADS), Rule("allow", "domain", ADS)}],
-                     [k |-> "rewrite_add", e |-> Rw(RWN, "cname", "", FWD)],
-                     [k |-> "protection", on |-> TRUE],
-                     [k |-> "qlog_config", enabled |-> TRUE, anon |-> TRUE, ignored |-> {IgnPat(ADS)}]>>, 1)
+BusyOps1 == <<[k |-> "client_add", c |-> K1a], [k |-> "client_add", c |-> K2b],
+              [k |-> "set_rules", rules |-> {Rule("block", "domain", ADS)}],
+              [k |-> "rewrite_add", e |-> Rw(RWN, "ip4", "i1", <<>>)],
+              [k |-> "blocked_services", svcs |-> {"yt"}],
+              [k |-> "qlog_config", enabled |-> TRUE, anon |-> TRUE, ignored |-> {}]>>
+BusyOps2 == <<[k |-> "client_add", c |-> K1c], [k |-> "client_add", c |-> K2a],
+              [k |-> "filtering", on |-> FALSE],
+              [k |-> "rewrite_add", e |-> Rw(ADS, "ip4", "i2", <<>>)],
+              [k |-> "blocked_services", svcs |-> {"yt", "fb"}],
+              Acc({}, {AC!Ip("v4", BitsOf(A2))}, {AC!Pat("domain", DENY)}),
+              [k |-> "stats_config", enabled |-> TRUE, ignored |-> {IgnPat(RWN)}]>>
+BusyOps3 == <<[k |-> "client_add", c |-> K1d], [k |-> "client_add", c |-> K2b],
+              [k |-> "set_rules", rules |-> {Rule("block", "domain", ADS), Rule("allow", "domain", ADS)}],
+              [k |-> "rewrite_add", e |-> Rw(RWN, "cname", "", FWD)],
+              [k |-> "protection", on |-> TRUE],
+              [k |-> "qlog_config", enabled |-> TRUE, anon |-> TRUE, ignored |-> {IgnPat(ADS)}]>>
+Busy1 == After(S0, BusyOps1, 1)
+Busy2 == After(S0, BusyOps2, 1)
+Busy3 == After(S0, BusyOps3, 1)
 Bases == IF Scale = 1 THEN {S0} ELSE {S0, Busy1, Busy2, Busy3}
+
+\* The universe, and the admin calls that lead from the fresh installation to
+\* each base configuration: checks/g09.py replays every query of the universe
+\* from every base on the real system (the query transitions the vacuity probe
+\* lists), and plans its longer histories over admin and queries.
+ASSUME PrintT(<<"@@V", ToJson([k |-> "universe", admin |-> AdminOps, queries |-> Queries,
+                               bases |-> <<<<>>, BusyOps1, BusyOps2, BusyOps3>>])>>)
 
 \* ------------------------------------------------------------------ actions
 \* The composition, or -- in the negative configurations -- a deliberately
